@@ -7,8 +7,8 @@
 EXTENDS SynthOpt
 Traces == JsonDeserialize(IOEnv.VERIF_TRACES)
 VARIABLES tid, l
-tvars == <<sl, prog, done, tid, l>>
-TInit == tid \in 1..Len(Traces) /\ l = 1 /\ sl = "" /\ prog = 0 /\ done = FALSE
+tvars == <<sl, prog, done, acts, tid, l>>
+TInit == tid \in 1..Len(Traces) /\ l = 1 /\ sl = "" /\ prog = 0 /\ done = FALSE /\ acts = {}
 UnitEq(a, b) == a.c = b.c /\ a.r = b.r /\ a.sp = b.sp /\ a.ins = b.ins /\ a.outs = b.outs
 Why(t) ==
     IF t.raised = 1 \/ ~Modelled(t.prog) \/ ~MustCompile(t.prog) \/ t.parsed.ok # 1 \/ Len(t.parsed.defs) # 1 THEN "ok"
@@ -26,7 +26,7 @@ Step == /\ l = 1
         /\ LET why == Why(Traces[tid]) IN
            IF why = "ok" THEN PrintT(<<"ACC", Traces[tid].id>>) /\ l' = 0 - 1
            ELSE PrintT(<<"REJ", Traces[tid].id, 1, why>>) /\ l' = 0
-        /\ UNCHANGED <<tid, sl, prog, done>>
+        /\ UNCHANGED <<tid, sl, prog, done, acts>>
 TNext == Step
 TSpec == TInit /\ [][TNext]_tvars
 =============================================================================
